@@ -65,6 +65,14 @@ func (f *FuncVC) call(st *State, x *ssa.Call) *Val {
 	if con := f.contractFor(c); con != nil {
 		return f.applyContract(st, x, con, args)
 	}
+	if !c.IsInvoke() && c.StaticCallee() == nil && f.eng.funcTypes != nil {
+		// call through a value of a named function type with a declared contract
+		if nt, ok := c.Value.Type().(*types.Named); ok && nt.Obj().Pkg() != nil {
+			if con := f.eng.funcTypes[nt.Obj().Pkg().Path()+"."+nt.Obj().Name()]; con != nil && len(args) == len(con.Params) {
+				return f.applyContract(st, x, con, args)
+			}
+		}
+	}
 	if r, ok := f.fieldFuncCall(st, x, args); ok {
 		return r
 	}
@@ -356,7 +364,13 @@ func (f *FuncVC) callEffects(x *ssa.Call, hs *havocSet) {
 	if fn := c.StaticCallee(); fn != nil && fn.Name() == "ssa:deferstack" {
 		return
 	}
-	if con := f.contractFor(c); con != nil {
+	con := f.contractFor(c)
+	if con == nil && !c.IsInvoke() && c.StaticCallee() == nil && f.eng.funcTypes != nil {
+		if nt, ok := c.Value.Type().(*types.Named); ok && nt.Obj().Pkg() != nil {
+			con = f.eng.funcTypes[nt.Obj().Pkg().Path()+"."+nt.Obj().Name()]
+		}
+	}
+	if con != nil {
 		if !con.HasMod {
 			hs.all = true
 			return
